@@ -20,12 +20,16 @@ KEY_MAX = {"uint8": 256, "ptr": 60000}
 F_AVOID_CLEAR = 1
 F_SCATTER = 2
 F_PROBE = 4
+F_TRACE = 8
+F_NO_NAN = 16
 
 # fixed probes of the findings (always run first, never random)
 PROBES = {
     "C06-memclr-stub": ["int:int:mixed:3000:0:0:0:1:4", "string:a5:mixed:3000:0:0:0:2:4"],
     "C06-indirect-slot-size": ["int:a17:mixed:200:0:0:3000:3:1", "bk:int:mixed:200:0:0:3000:3:1",
                                "bk:a17:mixed:200:0:0:3000:4:1", "iface:a17:mixed:200:0:0:3000:5:1"],
+    # hit rate of one spec is about 8 % (depends on the per-process hash seed): 24 short histories
+    "C06-iter-samesize-nan": ["float64:int:nanchurn:960:4:24:8000:%d:1" % i for i in range(1, 25)],
 }
 
 
@@ -49,14 +53,14 @@ def truncate(s, ops):
 def signature(s):
     """structural signature: instantiation, profile and size class (not the seed)"""
     p = parse(s)
-    size = p["hi"] if p["prof"] in ("osc", "churn") else p["pool"]
+    size = p["hi"] if p["prof"] in ("osc", "churn", "nanchurn") else p["pool"]
     cls = 0
     while cls < len(THRESH) and size > THRESH[cls]:
         cls += 1
-    return "%s/%s/%s/B%d/f%d" % (p["k"], p["v"], p["prof"], cls, p["flags"] & 2)
+    return "%s/%s/%s/B%d/f%d" % (p["k"], p["v"], p["prof"], cls, p["flags"] & (2 | 16))
 
 
-def _one(r, k, v, tier, flags, idx):
+def _one(r, k, v, tier, flags, idx, avoid_nan_churn=False):
     seed = r.randrange(1, 1 << 40)
     if k == "int" and r.random() < 0.5:
         flags |= F_SCATTER
@@ -88,7 +92,13 @@ def _one(r, k, v, tier, flags, idx):
         b = r.choices([1, 2, 3, 4, 5, 6], weights=[3, 3, 3, 3, 2, 1 if big else 0])[0]
         hi = THRESH[b] - r.choice([0, 0, 0, 1, 2])
         ops = {1: 3000, 2: 5000, 3: 8000, 4: 14000, 5: 24000, 6: 45000}[b]
-        return spec(k, v, "churn", 40 * hi, max(1, hi // 6), hi, ops, seed, flags)
+        prof = "churn"
+        if k in ("float64", "iface"):
+            if avoid_nan_churn:
+                flags |= F_NO_NAN   # open finding C06-iter-samesize-nan: NaN keys + same-size grow stay in the probe
+            elif r.random() < 0.6:
+                prof = "nanchurn"   # keeps hi/3 NaN-keyed entries alive and iterates right after inserts
+        return spec(k, v, prof, 40 * hi, max(1, hi // 6), hi, ops, seed, flags)
     if kind == "fill":
         pool = r.choice([500, 2000, 8000] + ([30000] if big else []))
         return spec(k, v, "fill", pool, 0, 0, min(50000, max(4000, int(2.2 * pool))), seed, flags)
@@ -99,7 +109,7 @@ def _one(r, k, v, tier, flags, idx):
     return spec(k, v, r.choice(["mixed", "fill"]), pool, 0, 0, 50000, seed, flags)
 
 
-def histories(seed, tier, avoid_clear_grown=False, avoid_indirect=False, n=None):
+def histories(seed, tier, avoid_clear_grown=False, avoid_indirect=False, avoid_nan_churn=False, n=None):
     """list of specs, fixed by (seed, tier, avoid flags)"""
     r = random.Random(seed * 7919 + (1 if tier == "thorough" else 0))
     if n is None:
@@ -111,7 +121,7 @@ def histories(seed, tier, avoid_clear_grown=False, avoid_indirect=False, n=None)
     out = []
     for i in range(n):
         k, v = combos[i % len(combos)]
-        out.append(_one(r, k, v, tier, flags, i))
+        out.append(_one(r, k, v, tier, flags, i, avoid_nan_churn))
     return out
 
 
